@@ -136,15 +136,17 @@ STD_ASSUME = [
 PROPS["C19"] = {
     "files": ["src/payload.rs", "src/types.rs"],
     "functions": ["<Frame as Protocol>::parse", "<Packet as Protocol>::parse", "Address::read_from_fixed"],
-    "bounds": "Frame::parse: every byte string of length 0..=24 (the dissector reads at most 16 bytes); Packet::parse: every "
-              "byte string of length 0..=64 (reads at most 40); all ethertypes, tag-control values and version nibbles are "
+    "bounds": "Frame::parse: every byte string of length 0..=24 (one instance per length; the dissector reads at most 16 bytes); Packet::parse: every "
+              "byte string of length 0..=64 (one instance per length; reads at most 40); quick tier: 7 lengths each around the limits; all ethertypes, tag-control values and version nibbles are "
               "inside the symbolic bytes; compared with an independently written reference dissector",
     "outside": "byte strings longer than 24 / 64 bytes (no code path depends on the excess); VLAN id 0 may be reported in "
                "either the tagged or the folded form here - the folding is decided under C13",
     "assumptions": STD_ASSUME,
     "obligations": [
-        K("c19_frame_exact", "Frame::parse == reference dissector on all strings of length <= 24; never panics"),
-        K("c19_packet_exact", "Packet::parse == reference dissector on all strings of length <= 64; never panics"),
+    ] + [K("c19_frame_exact_len%02d" % n, "Frame::parse == reference dissector on all %d-byte strings; never panics" % n,
+           ("quick", "thorough") if n in (0, 13, 14, 15, 16, 18, 24) else T) for n in range(0, 25)]
+      + [K("c19_packet_exact_len%02d" % n, "Packet::parse == reference dissector on all %d-byte strings; never panics" % n,
+           ("quick", "thorough") if n in (0, 1, 19, 20, 39, 40, 64) else T) for n in range(0, 65)
     ],
 }
 
